@@ -279,6 +279,9 @@ func replayLocking(c *core.Ctx, lfsBin string, b *behaviour, idx int) (*core.Vio
 
 func init() {
 	registry["C16"] = func(c *core.Ctx, replay string) {
+		if replayBehaviourOnly(c, replay, replayLocking, "model_checking") {
+			return
+		}
 		c.Level = "model_checking"
 		lfs := c.BuildLFS()
 		cfg, budget := "Locking_q.cfg", 420
